@@ -168,7 +168,17 @@ pub fn generate(target: Target, r: &mut Rng, tier: Tier, st: &mut Stats) -> Trac
     let (cols, rows) = gen_size(r, mc, mr);
     // cursor addressing on gigantic screens (parameters beyond 9999 / beyond 16 bits) - only for the
     // cursor target: its sessions are short and need no long text
-    let (cols, rows) = if target == Target::Cursor { maybe_gigantic(r, (cols, rows)) } else { (cols, rows) };
+    let (cols, rows) = if target == Target::Cursor {
+        if r.chance(1, 400) {
+            gigantic_size(r)
+        } else {
+            maybe_gigantic(r, (cols, rows))
+        }
+    } else {
+        (cols, rows)
+    };
+    // scrolling regions on screens taller than the 16-bit range (one or two columns wide)
+    let (cols, rows) = if target == Target::Scroll && r.chance(1, 4000) { (1 + r.usize_below(2), *r.pick(&[65_535usize, 65_536, 65_537, 70_000])) } else { (cols, rows) };
     // C06 also runs with small scrollback limits: what the terminal no longer retains must have been
     // handed out through Changes.scrollback of the call that trimmed it
     let limit = if target == Target::Scroll && r.chance(1, 4) { *r.pick(&[Some(0usize), Some(1), Some(3), Some(10)]) } else { None };
@@ -215,7 +225,27 @@ pub fn generate(target: Target, r: &mut Rng, tier: Tier, st: &mut Stats) -> Trac
     p.max_tokens = if big { 60 } else { 25 };
     let o = SessionOpts { profile: p, max_cols: mc, max_rows: mr };
     let mut gs = GenStats::default();
-    let evs = gen_events_anycut(r, &cfg, &o, DrainPolicy::AlwaysAll, &mut gs);
+    let mut evs = gen_events_anycut(r, &cfg, &o, DrainPolicy::AlwaysAll, &mut gs);
+    if cols * rows > 20_000 && r.chance(2, 3) {
+        // on a gigantic screen the far edge is out of reach of a single parameter: start there
+        let pre = match target {
+            Target::Cursor | Target::Print if cols > rows => {
+                st.bump("gigantic_start_wrap_pending_at_far_right");
+                // ... followed at once (wrap still pending) by a cursor function with an extreme count
+                let follow = if r.chance(2, 3) { format!("\x1b[{}{}", r.pick(&["65535", "65535", "65534", "65536", "4464", "4465", "1", ""]), r.pick(&['D', 'D', 'C', 'G', '`', 'a', 'Z', 'I', 'A', 'E', 'F'])) } else { String::new() };
+                format!("\x1b[65535G\x1b[65535Cx{}", follow)
+            }
+            Target::Cursor | Target::Print => {
+                let follow = if r.chance(2, 3) { format!("\x1b[{}{}", r.pick(&["65535", "65535", "65534", "65536", "4464", "4465", "1", ""]), r.pick(&['A', 'A', 'B', 'd', 'e', 'F', 'E', 'H'])) } else { String::new() };
+                format!("\x1b[65535d\x1b[65535B{}", follow)
+            }
+            Target::Scroll => {
+                st.bump("gigantic_start_region_with_default_bottom");
+                format!("\x1b[{}r\x1b[65535d\x1b[65535B{}", r.pick(&["", "3", "2;0", "2;"]), r.pick(&["", "\n", "\x1bD", "x\n"]))
+            }
+        };
+        evs.insert(0, Event::FeedStr { s: pre, drain: crate::trace::Drain::All });
+    }
     super::record_gen(st, &gs);
     let mut t = Trace::new(target.id(), cfg);
     t.events = evs;
@@ -319,7 +349,16 @@ pub fn execute(target: Target, t: &Trace, st: &mut Stats, ctx: &Ctx) -> Verdict 
                     continue;
                 };
                 let cls = classify(&f, &m);
-                if cls != Some(target) {
+                // C06 names "auto-wrap on the bottom margin" among the causes of scrolling: a print
+                // that wraps there is judged as a scroll too (the rows of the region shift by one)
+                let wrap_scroll = target == Target::Scroll && matches!(f, Function::Print(_)) && m.awm && m.col >= m.cols && m.row == m.bottom;
+                if wrap_scroll {
+                    st.bump("auto_wrap_scrolls_on_bottom_margin");
+                    if m.bottom + 1 < m.rows {
+                        st.bump("auto_wrap_scrolls_on_inner_bottom_margin");
+                    }
+                }
+                if cls != Some(target) && !wrap_scroll {
                     // not this property's operation: hidden state only, observable state adopted
                     let pre_above_len = m.above.len();
                     let was_alt = m.alt;
